@@ -14,6 +14,7 @@ REGISTRY = {
     "C02": "matching",
     "C03": "passfail",
     "C04": "ap",
+    "C08": "monotone",
     "C09": "heading",
     "C10": "filtering",
     "C11": "idmatching",
